@@ -10,7 +10,7 @@ K-C01: a generated PROGRAM of typed remora statements is rendered as C++ TUs (co
 import json, os, re, subprocess, time
 from concurrent.futures import ThreadPoolExecutor
 from vlib import core
-from checks import c01gen, c01neg
+from checks import c01gen, c01neg, c01dir
 
 TRUST = ("Lean 4.33 kernel; axioms at most propext/Classical.choice/Quot.sound (audited per run by #audit_module); ")
 MANIFEST = dict(
@@ -24,13 +24,34 @@ MANIFEST = dict(
         "assign_alias_correct: the aliasing forms =,+=,-=,*=,/= yield f(old target, rhs on the old memory) for every "
         "right-hand side, also when it reads the target; assign_noalias_correct / assign_noalias_elementwise_correct for "
         "the in-place forms under disjointness resp. same-index reads; (iii) orientation_irrelevant for all shapes and "
-        "proxy_index_* for nested dense proxies. The model is tied to the real code by an exact correspondence: "
-        "generated programs of typed statements (all assignment forms, explicit aliasing, proxies, products, reductions, "
-        "shapes incl. 0 and 1) compiled per run against the repo headers with and without REMORA_USE_CBLAS under "
-        "ASan/UBSan, compared value-for-value with the model run on rationals, plus an independent naive-loop oracle."),
+        "proxy_index_* for nested dense proxies; (iv) kernels: foldFrom_max_spec / foldFrom_min_spec / "
+        "rowFold_max_is_row_maximum / rowFold_min_is_row_minimum (the first-element-seeded row fold IS the maximum / minimum "
+        "of the line for data of any sign, over any linear order), foldRowsBlocked_correct (the blocked column-major fold "
+        "kernel equals the denotation for every block size and shape), sumTiled_correct (tiling the inner dimension of a "
+        "product into ceil(K/T) tiles starting at b*T of min(T,K-b*T) columns gives the defining sum, for every T>0 and K), "
+        "strided_disjoint_of_extent (two strided proxies are disjoint when the LAST cell base+(size-1)*stride of one lies "
+        "before the other), each with a witness that the neighbouring wrong variant (zero seed, tile start b*current, extent "
+        "base+size) differs. The model is tied to the real code by an exact correspondence: "
+        "(a) a DIRECTED program, run in both tiers: aliasing assignment between every ordered pair of dense proxy kinds of one "
+        "storage (row/column/diagonal/linearisation and sub-ranges of them in several nested spellings; container/transpose/"
+        "sub-matrix/rows/columns), target behind, before and on the source, plain and all compound forms, bare proxies and "
+        "expressions of them, row- and column-major, square/wide/tall, plus block-wise right-hand sides reading the target; "
+        "all six row-wise reductions over rows and over columns of row- and column-major containers, proxies and element-wise "
+        "expressions, scalar reductions of vectors/strided proxies/matrices (incl. matrix norm_1/norm_inf, frobenius_prod) on "
+        "all-negative/all-positive/mixed/one-signed-line/constant/zero data; gemm/gemv/trmm/trmv/mixed-orientation assignment "
+        "with container, proxy and expression operands on shapes just below, at, just above and far from every blocking "
+        "constant of kernels/default and kernels/cblas that the expression layer reaches (gemm MR=4 NR=6 MC=128 KC=512 "
+        "NC=1020, BLAS fallback tile 512, fold_rows 16, transposing assign 8/16, trmv/trmm 128) and 0/1-sized; "
+        "(b) generated programs of typed statements (all assignment forms, explicit aliasing incl. two proxies of one "
+        "variable, proxies, products incl. triangular, reductions, value classes of one sign, shapes incl. 0 and 1); both "
+        "compiled per run against the repo headers with and without REMORA_USE_CBLAS under "
+        "ASan/UBSan, compared value-for-value with the model run on rationals, plus an independent naive-loop oracle "
+        "(defining formulas on plain std::vector copies) that turns a disagreement into a concrete failing input."),
   note=TRUST + "floating-point rounding is not modelled (data are kept exactly representable, comparison is exact); "
        "kernel dispatch (default/cblas kernels, blockwise vs element-wise evaluation), the template meta-program that "
-       "selects which rule fires, sparse containers and reductions are exercised by the correspondence only; the "
+       "selects which rule fires, sparse containers, the packing/micro-kernels of the block gemm and the BLAS library itself are "
+       "exercised by the correspondence only (the theorems of (iv) are about the blocking index arithmetic and the fold, "
+       "not about the C++ text); shapes beyond the listed boundary values are sampled, not exhausted; the "
        "assignment theorems are about the element loop on an abstract lawful memory, the hand-written model is tied by "
        "the correspondence, the rule table by translation.",
   technique="Lean 4 proof over a deep embedding + per-run translation of the rewrite-rule table into lemmas + differential correspondence with generated C++ programs (ASan/UBSan, both BLAS configurations)",
@@ -39,10 +60,12 @@ MANIFEST = dict(
 FINISH = dict(level="proof",
               rule="generated programs of typed remora statements (expression trees of bounded depth over dense "
                    "row/column-major matrices and vectors, proxies, all assignment forms, explicit aliasing) from one "
-                   "SplitMix64 stream; a statement is non-trivial if its right-hand side has depth >= 1; distinct = distinct op text")
+                   "SplitMix64 stream, preceded by the directed program (structure fixed in the quick tier, data from the seed; "
+                   "counted separately as directed_evaluations); a statement is non-trivial if its right-hand side has depth >= 1; "
+                   "distinct = distinct op text")
 
 LAKE_TARGETS = ["SharkVerif.Props.C01", "SharkVerif.Gen.RemoraRules", "SharkVerif.Gen.RemoraOpt", "drv_c01"]
-JOBS = 4
+JOBS = int(os.environ.get("C01_JOBS", "4"))
 # one thread in the harness: OpenMP/OpenBLAS worker threads spin-wait, which makes the many short harness
 # runs of a shrink very slow on a loaded machine (and a single thread keeps the kernels' summation order fixed)
 os.environ.setdefault("OMP_NUM_THREADS", "1")
@@ -86,6 +109,12 @@ def load_corpus():
 # ---------------------------------------------------------------------------------------------
 def compile_program(ctx, name, tus, flags, rejected=None):
     """tus: list of (filename, source text).  Returns exe path or None."""
+    if core.REPO != "/repo":
+        # objects and executables of a scratch tree (VERIF_REPO) live beside, not over, those of /repo:
+        # the warm cache of /repo survives, and two trees can be checked at the same time
+        name = f"{name}-{core.sha(os.path.abspath(core.REPO))[:8]}"
+    if not ctx.quick:
+        name += "-thorough"        # the two tiers may run side by side
     inc = ctx.shark_h()
     allflags = ctx.BASE_FLAGS + ctx.SAN_FLAGS + list(flags) + \
         ["-I" + inc, "-I" + os.path.join(core.REPO, "include"), "-I" + os.path.join(core.VERIF, "harness")]
@@ -200,16 +229,23 @@ def gen_program(ctx, calc, ncases, nstmts, maxdepth, use_sparse):
     return cases
 
 
-def render(cases, per_tu, dropped=()):
+def render(cases, per_tu, dropped=(), shared=False):
     """cases: [(init ops, [(k, op, src, info)])] -> (op-line cases, TUs, infos); a case is cut at
-    its first dropped statement"""
-    out, srcs, infos = [], [], []
+    its first dropped statement.  shared: a statement number may occur in several cases (directed
+    program: shape-independent statements run on many stores); its source is rendered once and a
+    dropped statement is skipped instead of cutting the case"""
+    out, srcs, infos, seen = [], [], [], set()
     for init, stmts in cases:
         ops = list(init)
         for (k, op, src, info) in stmts:
             if k in dropped:
+                if shared:
+                    continue
                 break
-            ops.append(op); srcs.append(src); infos.append(info)
+            ops.append(op); infos.append(info)
+            if not (shared and k in seen):
+                srcs.append(src)
+            seen.add(k)
         out.append(ops)
     tus = []
     for i in range(0, len(srcs), per_tu):
@@ -332,32 +368,63 @@ def run(ctx):
         ctx.cov["evaluations"] = ctx.cov.get("ops_compared", 0)
         ctx.cov["distinct_nontrivial"] = ctx.cov.get("corpus_cases", 0)
         return
-    # ---- 2. generated program
+    # ---- 2. directed program (aliasing proxy pairs, folds on sign classes, blocking constants)
+    directed, skipped = c01dir.directed_program(ctx, calc, ctx.quick)
+    ctx.cov["directed_combinations_rejected_as_not_in_library"] = skipped
+    run_program(ctx, "dir", directed, 30 if ctx.quick else 40, drv, shared=True)
+    if os.environ.get("C01_ONLY_DIRECTED"):   # development aid
+        ctx.cov["evaluations"] = ctx.cov.get("directed_evaluations", 0)
+        ctx.cov["distinct_nontrivial"] = ctx.cov.get("dir_statements_generated", 0)
+        return
+    # ---- 3. generated program
     program = gen_program(ctx, calc, ncases, nstmts, maxdepth, sparse_ok)
-    total = sum(len(st) for _, st in program)
+    run_program(ctx, "gen", program, per_tu, drv, shared=False)
+
+
+def run_program(ctx, tag, program, per_tu, drv, shared):
+    """compile a program in both configurations and compare it with the model, case by case"""
+    total = len({k for _, st in program for (k, _, _, _) in st})
+    base = "c01" if tag == "gen" else "c01-" + tag
+    name = "K-C01" if tag == "gen" else "K-C01-" + tag
     # statements the C++ compiler rejects (combinations the library cannot instantiate and the rule
     # table does not tell us about, e.g. mixed-orientation kernels) are dropped and counted
     dropped, rejected = set(), []
     for _ in range(6):
-        cases, tus, infos = render(program, per_tu, dropped)
-        res = compile_program(ctx, "c01-default", tus, [], rejected)
+        cases, tus, infos = render(program, per_tu, dropped, shared)
+        res = compile_program(ctx, f"{base}-default", tus, [], rejected)
         if not isinstance(res, list):
             break
         dropped |= set(res)
-    ctx.cov["statements_generated"] = total
-    ctx.cov["statements_rejected_by_compiler"] = len(dropped)
-    ctx.cov["compiler_rejections"] = rejected[:8]
+    pre = "" if tag == "gen" else tag + "_"
+    ctx.cov[pre + "statements_generated"] = total
+    ctx.cov[pre + "statements_rejected_by_compiler"] = len(dropped)
+    ctx.cov[pre + "compiler_rejections"] = rejected[:8]
     if len(dropped) * 5 > total:
-        ctx.broken("harness-build", "c01-default", f"{len(dropped)} of {total} generated statements do not compile: {rejected[:2]}")
+        ctx.broken("harness-build", f"{base}-default", f"{len(dropped)} of {total} generated statements do not compile: {rejected[:2]}")
         return
-    record_distribution(ctx, cases, infos)
-    ctx.sample({"case": cases[len(cases) // 2][-4:]})
+    if tag == "gen":
+        record_distribution(ctx, cases, infos)
+        ctx.sample({"case": cases[len(cases) // 2][-4:]})
+    else:
+        for inf in infos:
+            ctx.hist("directed_family", inf.get("family", "?"))
+            ctx.hist("directed_form", inf["form"])
+        ctx.cov["directed_evaluations"] = len(infos)
+        ctx.cov["directed_cases"] = len(cases)
     for cname, flags in CONFIGS:
-        exe = compile_program(ctx, f"c01-{cname}", tus, flags)
+        exe = compile_program(ctx, f"{base}-{cname}", tus, flags)
         if not exe or isinstance(exe, list):
             continue
-        core.correspond(ctx, f"K-C01[{cname}]", cases, [exe], [drv], classify, max_report=12,
-                        keep_prefix=sum(1 for o in cases[-1] if not o.startswith(("stmt", "red"))))
+        if shared:
+            # every case declares its own variables: keep its whole declaration prefix when shrinking
+            by_prefix = {}
+            for c in cases:
+                by_prefix.setdefault(sum(1 for o in c if not o.startswith(("stmt", "red"))), []).append(c)
+            for kp, cs in sorted(by_prefix.items()):
+                core.correspond(ctx, f"{name}[{cname}]/{kp}", cs, [exe], [drv], classify, max_report=12, keep_prefix=kp)
+        else:
+            core.correspond(ctx, f"{name}[{cname}]", cases, [exe], [drv], classify, max_report=12,
+                            keep_prefix=sum(1 for o in cases[-1] if not o.startswith(("stmt", "red"))))
 
 
 def replay(ctx, rep):
